@@ -76,6 +76,22 @@ def main():
                    'width in {1,2,3,7,16,64,1024,2^15}, weights >= 0) on the real numba code', f'{n_streams} streams', h.evaluations)
     # ---- bounded exact counter
     n0 = h.evaluations
+    # large accumulated weights (up to just below 2^31 in total): small increments on top of a large cell still count
+    np.random.seed(7)
+    skb = CMS.CountMinSketch(4, 1000)
+    wb, totb = Counter(), 0
+    for x_, d_ in [('big', 2 ** 24), ('big', 1), ('big', 1), ('big', 3), ('other', 2 ** 24 + 1), ('other', 1), ('big', 1), ('x', 5), ('big', 1), ('other', 1)]:
+        skb.add(x_, d_)
+        wb[x_] += d_
+        totb += d_
+    h.record(('cms-big',), True)
+    for y_ in wb:
+        q_ = int(skb.query(y_))
+        if q_ < wb[y_] or q_ > totb:
+            h.fail('cms.never_below_true_weight' if q_ < wb[y_] else 'cms.never_above_total', {'stream': 'weights around 2^24 followed by unit increments', 'queried': y_},
+                   f'estimate {q_}, true weight {wb[y_]}, total {totb}')
+    if any(int(skb.M[r].sum()) != totb for r in range(4)):
+        h.fail('cms.rowsum_is_total', {'stream': 'weights around 2^24 followed by unit increments'}, f'row sums {[int(skb.M[r].sum()) for r in range(4)]} total {totb}')
     for sidx in range(200 if quick else 3000):
         bound = int(rng.integers(-1, 8))
         c = PCC(bound)
